@@ -239,6 +239,19 @@ pub fn gen_facts(rng: &mut Rng, o: Opts) -> Facts {
                 f.terms[i].replacement = Some(if rng.chance(3, 4) { *rng.pick(&ids) } else { rng.range(1, 9_999_999) as u32 });
             }
         }
+        // a chain of replacements a -> b -> c (a replacement that is itself replaced), ids ascending or not
+        let lo = if with_roots { 2 + n_mod } else { 0 };
+        if n >= lo + 3 && rng.chance(1, 2) {
+            let mut cand: Vec<usize> = (lo..n).collect();
+            rng.shuffle(&mut cand);
+            let mut three = vec![cand[0], cand[1], cand[2]];
+            if rng.chance(2, 3) {
+                three.sort_by_key(|i| ids[*i]);
+            }
+            f.terms[three[0]].replacement = Some(ids[three[1]]);
+            f.terms[three[1]].replacement = Some(ids[three[2]]);
+            f.terms[three[0]].obsolete = true;
+        }
     }
     // annotations: overlapping numeric ids across kinds, different totals
     let gen_kind = |rng: &mut Rng, maxr: usize| -> Vec<AnnF> {
